@@ -53,6 +53,8 @@ func configVariants(scs []engine.Scenario, tier string, which ...string) []engin
 				c.Cfg.Err500 = true
 			case "nomount":
 				c.Cfg.NoMount = true
+			case "preload-user":
+				c.Cfg.PreloadUser = true
 			case "localizer":
 				c.Cfg.EmptyLocalizer = true
 			case "app-recover-hook":
